@@ -8,6 +8,8 @@ THEOREMS = [
     "TornadoModel.C06.normalize_idem",
     "TornadoModel.C06.normalize_lower",
     "TornadoModel.C06.normalize_eq_iff_lower_eq",
+    "TornadoModel.C06.normalize_eq_headerCase",
+    "TornadoModel.C06.normalize_case_variants",
     "TornadoModel.C06.cache_sound_step",
     "TornadoModel.C06.cache_sound_run",
     "TornadoModel.C06.refines_multimap",
@@ -25,10 +27,15 @@ ASSUMPTIONS = [
     "aliasing between a map and its copy cannot be expressed in the (immutable) model; copy independence is decided by the correspondence stream only",
 ]
 RULE = ("op sequences over a small name/value alphabet with case variants, valid/invalid values, obs-fold lines; "
+        "names are legal tokens incl. letters directly after digits/_/./!/~/' etc. (P3P, X_Forwarded_For): every case "
+        "pattern of every short token over a tchar alphabet is probed against every other spelling of the same name "
+        "(add/set/del/get/get_list/in/parse_line); "
         "non-trivial = at least one name holds >=2 values or a cached read precedes a mutation; distinct by canonical JSON")
 EXHAUSTIVE = {"quick": False, "thorough": False}
 CLAUSES = {
-    "behaves like an insertion-ordered multimap keyed by case-insensitive name": "refines_multimap + normalize_eq_iff_lower_eq",
+    "behaves like an insertion-ordered multimap keyed by case-insensitive name":
+        "refines_multimap + normalize_eq_iff_lower_eq + normalize_case_variants (all names, not only letters-and-hyphens; "
+        "closed form of the stored key: normalize_eq_headerCase)",
     "reading a name returns its values joined by commas": "refines_multimap (Spec.get) + cache_sound_run",
     "any name reported present can be deleted": "present_deletable",
     "copies are independent": "copy_equal (same entries) + tie only (aliasing between the two objects)",
@@ -40,18 +47,54 @@ NAMES = ["a", "A", "x-y", "X-Y", "X-y", "Set-Cookie", "set-cookie", "b", "conten
 VALUES = ["1", "2", "v w", "a\tb", "", "\xe9\xff", "x,y", "a:b", "#", "  padded  "]
 BAD_VALUES = ["a\nb", "a\rb", "\x00", "x\x7f", " lead", "trail ", "Ā", "a\x1fb"]
 BAD_NAMES = ["", "a b", "a:b", "a\n", "(x)", "a\x00"]
+# Legal field names (tokens) in which a letter directly follows a non-letter other than '-' (digit, '_', '.', '!',
+# '~', "'" ...).  `_normalize_header` lower-cases such a letter (str.capitalize per '-'-separated word), whereas
+# str.title()/istitle() treat it as the start of a word: every family lists several spellings of ONE name,
+# among them the title()-cased one, the header-cased one, all-lower and all-upper.
+TOKEN_FAMILIES = [
+    ["P3P", "p3p", "P3p", "p3P"],
+    ["X_Forwarded_For", "x_forwarded_for", "X_FORWARDED_FOR", "X_forwarded_for"],
+    ["X-Amz-Meta-File.Name", "x-amz-meta-file.name", "X-Amz-Meta-File.name", "X-AMZ-META-FILE.NAME"],
+    ["Content-MD5", "content-md5", "Content-Md5", "CONTENT-MD5"],
+    ["Sec-Ch-Ua-Platform.V2", "sec-ch-ua-platform.v2", "Sec-Ch-Ua-Platform.v2"],
+    ["1A", "1a"], ["A1b", "a1B", "A1B", "a1b"], ["~A", "~a"], ["_Ab", "_ab", "_AB", "_aB"],
+    ["A!B", "a!b", "A!b", "a!B"], ["It'S", "it's", "It's", "IT'S"], ["A`B|C", "a`b|c", "A`b|c"],
+    ["9-A9b", "9-a9B", "9-A9B", "9-a9b"], ["a.B-c_D", "A.b-C_d", "A.B-C_D", "a.b-c_d"],
+    ["X+Y*Z", "x+y*z", "X+y*z"], ["#A$B%C&D^E", "#a$b%c&d^e", "#A$b%c&d^e"],
+]
+TOKEN_NAMES = [n for fam in TOKEN_FAMILIES for n in fam]
+SWEEP_QUICK = "a3_.-!~'"                       # quick: every token of length <= 3 over this alphabet, all case patterns
+SWEEP_FULL = "az09" + "!#$%&'*+-.^_`|~"       # thorough: all 15 special tchars, boundary letters/digits
 NONASCII_NAMES = ["é", "Ā-b", "ß"]   # only through add(), which rejects them (capitalize() on non-ASCII is not modelled)
 FIELD_VALUE = re.compile(r"(?:[\x21-\x7e\x80-\xff](?:[\x21-\x7e\x80-\xff \t]*[\x21-\x7e\x80-\xff])?)?\Z")
 TOKEN = re.compile(r"[!#$%&'*+\-.^_`|~0-9A-Za-z]+\Z")
 
+_LETTER_AFTER_NONLETTER = re.compile(r"[^A-Za-z\-][A-Za-z]")
+
 OBSERVE = [["getAll"], ["keys"], ["len"], ["str"]]
 
 
-def _rand_ops(rng, n):
+def _pick_names(rng):
+    """name alphabet of one random case: the classic letters-and-hyphens list, a few token families (dense:
+    several spellings of the same 1-3 names meet in one history), or both"""
+    k = rng.random()
+    if k < 0.45:
+        return NAMES
+    fams = rng.sample(TOKEN_FAMILIES, rng.randint(1, 3))
+    names = [n for f in fams for n in f]
+    if k < 0.65:
+        return names + NAMES
+    extra = []
+    for n in names:     # plus mechanical variants (the title()-cased spelling is the one str.istitle() accepts)
+        extra += [n.title(), n.swapcase(), n.lower(), n.upper()]
+    return names + extra
+
+
+def _rand_ops(rng, n, names=NAMES):
     ops = []
     for _ in range(n):
         k = rng.random()
-        name = rng.choice(NAMES) if rng.random() < 0.93 else rng.choice(BAD_NAMES)
+        name = rng.choice(names) if rng.random() < 0.93 else rng.choice(BAD_NAMES)
         val = rng.choice(VALUES) if rng.random() < 0.9 else rng.choice(BAD_VALUES)
         if k < 0.30:
             if rng.random() < 0.03:
@@ -68,17 +111,17 @@ def _rand_ops(rng, n):
         elif k < 0.80:
             ops.append(["contains", name])
         elif k < 0.90:
-            ops.append(["parseLine", _rand_line(rng)])
+            ops.append(["parseLine", _rand_line(rng, names)])
         else:
             ops.append(rng.choice(OBSERVE))
     return ops
 
 
-def _rand_line(rng):
+def _rand_line(rng, names=NAMES):
     k = rng.random()
     eol = rng.choice(["", "\r\n", "\n", "\r\n", "\n\n", "\r\n\n", "\r", "\n\r\n"])
     if k < 0.45:
-        return "%s:%s%s%s%s" % (rng.choice(NAMES), rng.choice(["", " ", "\t ", "  "]), rng.choice(VALUES),
+        return "%s:%s%s%s%s" % (rng.choice(names), rng.choice(["", " ", "\t ", "  "]), rng.choice(VALUES),
                                 rng.choice(["", " ", "\t"]), eol)
     if k < 0.75:
         return "%s%s%s%s" % (rng.choice([" ", "\t", "  \t"]), rng.choice(VALUES + BAD_VALUES[:4]), rng.choice(["", " "]), eol)
@@ -98,32 +141,97 @@ def _enum_cases(names, values, maxlen):
             yield {"kind": "ops", "ops": [list(o) for o in seq] + tail, "enum": True}
 
 
+def _case_patterns(base):
+    """every upper/lower pattern of the letters of `base` (a lower-case token)"""
+    pos = [i for i, c in enumerate(base) if c.isalpha()]
+    for bits in itertools.product((0, 1), repeat=len(pos)):
+        cs = list(base)
+        for i, b in zip(pos, bits):
+            if b:
+                cs[i] = cs[i].upper()
+        yield "".join(cs)
+
+
+def _probe(first, other):
+    """`first` and `other` are two spellings of one name: every API must treat them as the same key.  If the
+    property holds the map is empty again afterwards, so probes can be chained."""
+    return [["add", first, "1"], ["contains", other], ["get", other], ["getList", other], ["add", other, "2"],
+            ["len"], ["get", first], ["keys"], ["set", other, "3"], ["getAll"], ["del", other], ["contains", first], ["len"],
+            ["parseLine", first + ": 1\r\n"], ["parseLine", other + ":2"], ["get", first], ["parseLine", "\tc"],
+            ["getList", other], ["del", other], ["len"]]
+
+
+def _sweep_pairs(alphabet, maxlen):
+    for L in range(1, maxlen + 1):
+        for t in itertools.product(alphabet, repeat=L):
+            base = "".join(t)
+            if not any(c.isalpha() for c in base):
+                continue
+            pats = list(_case_patterns(base))
+            for f in pats:
+                for o in pats:
+                    if f != o:
+                        yield f, o
+
+
+def _sweep_cases(pairs, per_case=2):
+    """chain `per_case` probes per case (short cases shrink well); the last pair is left in the map (two values, a
+    continuation line) so that str / the parse(str(h)) round trip see the name too"""
+    pairs = list(pairs)
+    for i in range(0, len(pairs), per_case):
+        chunk = pairs[i:i + per_case]
+        ops = [o for f, o2 in chunk for o in _probe(f, o2)]
+        f, o2 = chunk[-1]
+        ops += [["add", f, "1"], ["parseLine", " c"], ["add", o2, "2"], ["get", f], ["str"], ["getAll"]]
+        yield {"kind": "ops", "ops": ops, "sweep": True}
+
+
+def _family_pairs():
+    for fam in TOKEN_FAMILIES:
+        sp = list(dict.fromkeys(fam + [fam[0].title(), fam[0].lower(), fam[0].upper(), fam[0].swapcase()]))
+        for f in sp:
+            for o in sp:
+                if f != o:
+                    yield f, o
+
+
 def gen_cases(rng, tier):
     n_rand = {"quick": 2500, "thorough": 40000, "search": 4000}[tier]
     if tier == "quick":
         yield from _enum_cases(["a", "A", "b"], ["1", "2"], 2)
         yield from _enum_cases(["a", "A"], ["1"], 4)
+        yield from _enum_cases(["P3P", "p3p"], ["1"], 3)
     elif tier == "thorough":
         yield from _enum_cases(["a", "A", "b"], ["1", "2"], 3)
         yield from _enum_cases(["a", "A"], ["1"], 5)
+        yield from _enum_cases(["P3P", "p3p", "P3p"], ["1"], 3)
+        yield from _enum_cases(["X_Y", "x_y"], ["1"], 4)
+    # every spelling of every short token against every other spelling of the same token (all tiers: the search
+    # stage needs it too), and the same for the listed real-world style names
+    yield from _sweep_cases(_family_pairs())
+    yield from _sweep_cases(_sweep_pairs(SWEEP_QUICK, 3))
+    if tier == "thorough":
+        yield from _sweep_cases(_sweep_pairs(SWEEP_QUICK, 4))
+        yield from _sweep_cases(_sweep_pairs(SWEEP_FULL, 3))
     for _ in range(n_rand):
         k = rng.random()
+        names = _pick_names(rng)
         if k < 0.12:
             # targeted: build a (possibly multi-valued) header, read it, fold a continuation line into it, read again
-            name = rng.choice(NAMES)
-            ops = [["add", rng.choice([name, name.upper(), name.lower()]), rng.choice(VALUES)] for _ in range(rng.randint(1, 3))]
+            name = rng.choice(names)
+            ops = [["add", rng.choice([name, name.upper(), name.lower(), name.title()]), rng.choice(VALUES)] for _ in range(rng.randint(1, 3))]
             ops += rng.choice([[], [["get", name]], [["get", name], ["getAll"]], [["contains", name]]])
             ops += [["parseLine", rng.choice([" ", "\t", "  "]) + rng.choice(VALUES[:4] + ["x"]) + rng.choice(["", "\r\n", "\n"])]
                     for _ in range(rng.randint(1, 2))]
             ops += [["get", name], ["getList", name], ["str"], ["getAll"]]
             yield {"kind": "ops", "ops": ops}
         elif k < 0.6:
-            yield {"kind": "ops", "ops": _rand_ops(rng, rng.randint(1, 30))}
+            yield {"kind": "ops", "ops": _rand_ops(rng, rng.randint(1, 30), names)}
         elif k < 0.8:
-            yield {"kind": "copy", "ops": _rand_ops(rng, rng.randint(0, 12)), "after": _rand_ops(rng, rng.randint(1, 6)),
-                   "mutate": rng.choice(["copy", "orig"])}
+            yield {"kind": "copy", "ops": _rand_ops(rng, rng.randint(0, 12), names),
+                   "after": _rand_ops(rng, rng.randint(1, 6), names), "mutate": rng.choice(["copy", "orig"])}
         else:
-            text = "".join(_rand_line(rng) + rng.choice(["", "\n", "\r\n"]) for _ in range(rng.randint(0, 6)))
+            text = "".join(_rand_line(rng, names) + rng.choice(["", "\n", "\r\n"]) for _ in range(rng.randint(0, 6)))
             yield {"kind": "parse", "text": text}
 
 
@@ -181,7 +289,8 @@ def run_impl(case):
         return {"outs": outs, **extra}
     if case["kind"] == "parse":
         try:
-            return {"pairs": [list(p) for p in HTTPHeaders.parse(case["text"]).get_all()]}
+            h = HTTPHeaders.parse(case["text"])
+            return {"pairs": [list(p) for p in h.get_all()], "keys": list(h)}
         except Exception as e:
             return {"pairs": _exc(e)}
     if case["kind"] == "copy":
@@ -241,10 +350,40 @@ def impl_view(case, impl):
     return impl["copy"]
 
 
+def _lines_keep_lf(text):
+    """HTTPHeaders.parse feeds parse_line one line at a time, each with its LF, the rest without"""
+    pieces = text.split("\n")
+    return [p + "\n" for p in pieces[:-1]] + [pieces[-1]]
+
+
 def spec_requests(case, impl):
     if case["kind"] == "ops":
         return [line(ID, "spec", [[atom(o[0])] + o[1:] for o in case["ops"]])]
+    if case["kind"] == "parse":
+        # parse(text) = the multimap after parse_line on every line (first error wins)
+        return [line(ID, "spec", [[atom("parseLine"), l] for l in _lines_keep_lf(case["text"])]
+                     + [[atom("getAll")], [atom("keys")]])]
     return []
+
+
+def _ci(op, out):
+    """The property keys the map by the case-insensitive name; it does not say in which spelling a name is
+    *displayed*.  The oracle therefore compares displayed names (keys / get_all / str) up to ASCII case
+    (the exact display form, Http-Header-Case, is part of the model correspondence only)."""
+    try:
+        if op == "keys" and isinstance(out, list):
+            return [k.lower() for k in out]
+        if op == "getAll" and isinstance(out, list):
+            return [[k.lower(), v] for k, v in out]
+        if op == "str" and isinstance(out, str) and not out.startswith("Uncaught"):
+            ls = []
+            for l in out.split("\n"):
+                i = l.find(": ")
+                ls.append(l if i < 0 else l[:i].lower() + l[i:])
+            return "\n".join(ls)
+    except Exception:
+        pass
+    return out
 
 
 def spec_violation(case, impl, replies):
@@ -252,7 +391,7 @@ def spec_violation(case, impl, replies):
         want = _py(replies[0])
         got = impl["outs"]
         for i, (op, w, g) in enumerate(zip(case["ops"], want, got)):
-            if w != g:
+            if _ci(op[0], w) != _ci(op[0], g):
                 return "op %d %r: multimap says %r, HTTPHeaders gave %r" % (i, op, w, g)
         # present => deletable is part of the spec outputs (Spec.del succeeds iff contains)
         if impl.get("roundtrip") not in (None, True):
@@ -268,6 +407,14 @@ def spec_violation(case, impl, replies):
     if case["kind"] == "parse":
         if isinstance(impl["pairs"], str) and impl["pairs"].startswith("Uncaught"):
             return "HTTPHeaders.parse raised %s" % impl["pairs"]
+        outs = _py(replies[0])
+        errs = [o for o in outs[:-2] if o != "U"]
+        want = errs[0] if errs else outs[-2]
+        if _ci("getAll", want) != _ci("getAll", impl["pairs"]):
+            return "differs from the line-by-line multimap: want %r, HTTPHeaders.parse gave %r" % (want, impl["pairs"])
+        # get_all flattens: one name with two values and two adjacent spellings of it look alike; the keys do not
+        if not errs and _ci("keys", outs[-1]) != _ci("keys", impl.get("keys")):
+            return "differs from the line-by-line multimap: names %r, HTTPHeaders.parse has %r" % (outs[-1], impl.get("keys"))
     return None
 
 
@@ -284,8 +431,10 @@ def nontrivial(case, impl):
 
 
 def stats(case, impl):
-    out = ["kind:" + case["kind"]]
+    out = ["kind:" + case["kind"] + ("-sweep" if case.get("sweep") else "")]
     if case["kind"] == "ops":
+        if any(len(o) > 1 and o[0] != "parseLine" and _LETTER_AFTER_NONLETTER.search(o[1]) for o in case["ops"]):
+            out.append("names:letter-after-digit-or-punct")
         out.append("len:%d" % min(30, len(case["ops"]) // 5 * 5))
         for o, r in zip(case["ops"], impl["outs"]):
             out.append("op:" + o[0])
@@ -304,6 +453,11 @@ def signature(case, impl, why):
 def shrink(case):
     if case["kind"] in ("ops", "copy"):
         ops = case["ops"]
+        size = len(ops) // 2
+        while size > 1:     # drop whole chunks first (chained probes), then single ops
+            for i in range(0, len(ops), size):
+                yield {**case, "ops": ops[:i] + ops[i + size:]}
+            size //= 2
         for i in range(len(ops)):
             yield {**case, "ops": ops[:i] + ops[i + 1:]}
     if case["kind"] == "copy":
